@@ -61,10 +61,17 @@ var c14 struct {
 	untilN      int
 	backoffFn   func() (bool, error)
 	backoffN    int
-	elapsed     time.Duration
-	respErr     bool
-	deadlineSet bool
-	readConn    *c14Conn
+	backoffMgr  interface {
+		Backoff(time.Duration, bool) time.Duration
+	}
+	backoffSliding bool
+	elapsed        time.Duration
+	respErr        bool
+	deadlineSet    bool
+	readConn       *c14Conn
+	script         []int
+	scriptPos      int
+	nextRunID      string
 }
 
 func c14StubUntil(f func(), period time.Duration, stopCh <-chan struct{}) {
@@ -75,7 +82,20 @@ func c14StubBackoffUntil(f func() (bool, error), backoff interface {
 	Backoff(time.Duration, bool) time.Duration
 }, sliding bool, stopCh <-chan struct{}) {
 	c14.backoffFn = f
+	c14.backoffMgr, c14.backoffSliding = backoff, sliding
 	c14.backoffN++
+}
+
+// stub for wait.Jitter by its documented contract: any duration between d and d + maxFactor*d
+// (computed in whole per-mille so that no float arithmetic is needed)
+func c14StubJitter(d time.Duration, maxFactor float64) time.Duration {
+	if maxFactor <= 0.0 {
+		maxFactor = 1.0
+	}
+	pm := int64(maxFactor * 1000)
+	x := zzverif.Int64("jitter")
+	zzverif.Assume(x >= 0 && x <= (int64(d)/1000+1)*pm)
+	return d + time.Duration(x)
 }
 func c14StubSince(t time.Time) time.Duration { return c14.elapsed }
 func c14StubWriteMsg(c io.Writer, m any) error {
@@ -92,6 +112,25 @@ func c14StubReadMsgInto(c io.Reader, m msg.Message) error {
 	if cc != nil && len(cc.readDeadline) > 0 {
 		last := cc.readDeadline[len(cc.readDeadline)-1]
 		c14.deadlineSet = !last.IsZero()
+	}
+	if c14.script != nil {
+		k := c14.script[c14.scriptPos]
+		c14.scriptPos++
+		r, _ := m.(*msg.LoginResp)
+		switch k {
+		case 0: // accepted: a fresh run id, or the one the client presented
+			if r != nil {
+				r.RunID = c14.nextRunID
+			}
+			return nil
+		case 1: // refused: an error and no run id
+			if r != nil {
+				r.Error = "authorization failed"
+			}
+			return nil
+		default:
+			return errors.New("i/o timeout")
+		}
 	}
 	if c14.respErr {
 		return errors.New("i/o timeout")
@@ -188,4 +227,116 @@ func VerifC14Login() {
 		zzverif.Assert(len(conn.readDeadline) >= 2 && conn.readDeadline[len(conn.readDeadline)-1].IsZero(), "C14.login.deadline-cleared-after-answer")
 		zzverif.Reach("C14.login.ok")
 	}
+}
+
+// VerifC14Backoff: the three retry loops of the client (heartbeat sender, login loop, session
+// supervisor) are paced by the real fastBackoffImpl with the options the real callers pass.
+// For every sequence of outcomes and clock readings the delay before the next attempt stays
+// between a positive floor (no tight loop) and the configured ceiling (bounded delay).
+func VerifC14Backoff() {
+	c14.untilFn, c14.untilN, c14.backoffFn, c14.backoffN, c14.backoffMgr = nil, 0, nil, 0, nil
+	var floor, ceiling time.Duration
+	switch zzverif.Choice("loop", 3) {
+	case 0: // heartbeat sender
+		intervals := []int64{1, 2, 30, 3600}
+		iv := intervals[zzverif.Choice("heartbeatInterval", len(intervals))]
+		common := &v1.ClientCommonConfig{}
+		common.Transport.HeartbeatInterval = iv
+		common.Transport.HeartbeatTimeout = 90
+		conn := &c14Conn{}
+		ctl, err := NewControl(context.Background(), &SessionContext{Common: common, RunID: "r", Conn: conn, Connector: &c14Connector{conn: conn}, AuthSetter: &c14Setter{}})
+		zzverif.Assume(err == nil)
+		ctl.heartbeatWorker()
+		zzverif.Quiesce()
+		floor, ceiling = time.Second, time.Duration(iv)*time.Second
+		zzverif.Reach("C14.backoff.heartbeat")
+	case 1: // login loop
+		ctx, cancel := context.WithCancelCause(context.Background())
+		svr := &Service{ctx: ctx, cancel: cancel, common: &v1.ClientCommonConfig{}}
+		maxI := []time.Duration{10 * time.Second, 20 * time.Second}[zzverif.Choice("maxInterval", 2)]
+		svr.loopLoginUntilSuccess(maxI, false)
+		floor, ceiling = time.Second, maxI
+		zzverif.Reach("C14.backoff.login")
+	case 2: // session supervisor
+		ctx, cancel := context.WithCancelCause(context.Background())
+		svr := &Service{ctx: ctx, cancel: cancel, common: &v1.ClientCommonConfig{}}
+		done := make(chan struct{})
+		close(done)
+		svr.ctl = &Control{doneCh: done}
+		svr.keepControllerWorking()
+		floor, ceiling = 200*time.Millisecond, 20*time.Second
+		zzverif.Reach("C14.backoff.supervisor")
+	}
+	zzverif.Assert(c14.backoffN == 1 && c14.backoffMgr != nil && c14.backoffSliding, "C14.backoff.loop-is-paced-by-a-backoff-manager")
+	mgr := c14.backoffMgr
+	// the protocol of wait.BackoffUntil(sliding): the ticker starts with Backoff(0,false), then
+	// after every attempt delay = Backoff(delay, attemptFailed)
+	delay := mgr.Backoff(0, false)
+	zzverif.Assert(delay >= floor && delay <= ceiling, "C14.backoff.first-delay-within-bounds")
+	n := zzverif.Param("attempts", 4)
+	fails := 0
+	for i := 0; i < n; i++ {
+		failed := zzverif.Bool("attemptFailed")
+		prev := delay
+		delay = mgr.Backoff(delay, failed)
+		zzverif.Assert(delay >= floor, "C14.backoff.no-tight-loop")
+		zzverif.Assert(delay <= ceiling, "C14.backoff.delay-bounded-by-the-configured-maximum")
+		if failed {
+			fails++
+		} else {
+			fails = 0
+			zzverif.Assert(delay <= prev || delay <= ceiling, "C14.backoff.success-does-not-escalate")
+		}
+	}
+	if fails == n {
+		zzverif.Reach("C14.backoff.all-failed")
+	}
+}
+
+// VerifC12ClientRunID: over every sequence of accepted, refused and unanswered login attempts the
+// client presents the run id of its last accepted login (none before the first), so that the
+// server can replace the old session instead of keeping it beside a new one.
+func VerifC12ClientRunID() {
+	common := &v1.ClientCommonConfig{}
+	mux := false
+	common.Transport.TCPMux = &mux
+	conn := &c14Conn{}
+	kon := &c14Connector{conn: conn}
+	svr := &Service{ctx: context.Background(), common: common, authSetter: &c14Setter{},
+		connectorCreator: func(context.Context, *v1.ClientCommonConfig) Connector { return kon }}
+	n := zzverif.Param("attempts", 3)
+	c14.script, c14.scriptPos = nil, 0
+	for i := 0; i < n; i++ {
+		c14.script = append(c14.script, zzverif.Choice("answer", 3))
+	}
+	have := ""
+	for i := 0; i < n; i++ {
+		before := len(conn.written)
+		// the server hands out a new id to a client without one and confirms a presented one
+		c14.nextRunID = have
+		if have == "" {
+			c14.nextRunID = []string{"id-a", "id-b", "id-c", "id-d"}[i]
+		}
+		_, _, err := svr.login()
+		zzverif.Assert(len(conn.written) == before+1, "C12.client.one-login-message-per-attempt")
+		if len(conn.written) == before+1 {
+			l, ok := conn.written[before].(*msg.Login)
+			zzverif.Assert(ok && l.RunID == have, "C12.client.login-presents-the-run-id-of-the-last-accepted-login")
+		}
+		switch c14.script[i] {
+		case 0:
+			zzverif.Assert(err == nil && svr.runID == c14.nextRunID, "C12.client.accepted-login-stores-the-run-id")
+			have = c14.nextRunID
+			if i > 0 {
+				zzverif.Reach("C12.client.relogin-accepted")
+			}
+		default:
+			zzverif.Assert(err != nil, "C12.client.refused-or-unanswered-login-is-an-error")
+			zzverif.Assert(svr.runID == have, "C12.client.failed-attempt-keeps-the-run-id")
+			if have != "" {
+				zzverif.Reach("C12.client.failed-after-accepted")
+			}
+		}
+	}
+	c14.script = nil
 }
